@@ -193,7 +193,12 @@ func c09(p *core.Program, r *core.Report) {
 			return ok && bo.Op == token.SUB && isOrd(bo.X) && isOrd(bo.Y)
 		}
 		n := 0
-		for _, b := range fn.Blocks {
+		var kernelBlocks []*ssa.BasicBlock // the kernel and the function literals it declares (a per-segment closure)
+		kernelBlocks = append(kernelBlocks, fn.Blocks...)
+		for _, a := range fn.AnonFuncs {
+			kernelBlocks = append(kernelBlocks, a.Blocks...)
+		}
+		for _, b := range kernelBlocks {
 			for _, in := range b.Instrs {
 				bo, ok := in.(*ssa.BinOp)
 				if !ok || bo.Op != token.MUL {
@@ -243,10 +248,26 @@ func c09(p *core.Program, r *core.Report) {
 						if _, isP := root.(*ssa.Parameter); isP {
 							return ""
 						}
+						// a function literal of the kernel reads the array through the variable it captured
+						if cv, isCap := capturedValue(root); isCap {
+							if _, isP := sliceRoot(cv).(*ssa.Parameter); isP {
+								return ""
+							}
+						}
 						// the kernel as a method of the geometry: the array is a field of the receiver
 						if fl, isLd := root.(*ssa.UnOp); isLd && fl.Op == token.MUL {
-							if base, path := fieldRoot(fl.X); path != "" && len(fn.Params) > 0 && base == ssa.Value(fn.Params[0]) && fn.Signature.Recv() != nil {
-								return ""
+							if base, path := fieldRoot(fl.X); path != "" && len(fn.Params) > 0 && fn.Signature.Recv() != nil {
+								if base == ssa.Value(fn.Params[0]) {
+									return ""
+								}
+								// a value receiver is spilled into a local first
+								if cell, isCell := base.(*ssa.Alloc); isCell {
+									for _, rf := range eng.Referrers(cell) {
+										if st, isSt := rf.(*ssa.Store); isSt && st.Addr == ssa.Value(cell) && st.Val == ssa.Value(fn.Params[0]) {
+											return ""
+										}
+									}
+								}
 							}
 						}
 					}
@@ -255,13 +276,22 @@ func c09(p *core.Program, r *core.Report) {
 			case *ssa.Parameter:
 				return "the parameter " + x.Name()
 			case *ssa.Call:
+				// a function literal of the kernel computing one term: its arithmetic is judged below
+				if g := x.Call.StaticCallee(); g != nil && g.Parent() == fn {
+					return ""
+				}
 				return "the result of the call " + x.String()
 			}
 			return "the value " + v.String()
 		}
 		n := 0
 		bad := ""
-		for _, b := range fn.Blocks {
+		var blocks []*ssa.BasicBlock
+		blocks = append(blocks, fn.Blocks...)
+		for _, a := range fn.AnonFuncs {
+			blocks = append(blocks, a.Blocks...)
+		}
+		for _, b := range blocks {
 			for _, in := range b.Instrs {
 				bo, ok := in.(*ssa.BinOp)
 				if !ok || !isFloat64(bo.Type()) {
